@@ -31,28 +31,28 @@ type ModLoc struct {
 }
 
 type Contract struct {
-	Pkg      string
-	Func     string
-	Props    []string
-	Requires []*Clause
-	Ensures  []*Clause
-	Cases    []*Case
-	Modifies []ModLoc
-	ModAny   bool
-	LoopInv  map[int][]*Clause
-	Unroll   map[int]int
-	Panics   *Clause
-	Inline   bool
-	Trusted  bool
-	Emits    bool // may extend the call trace
-	Allocs   bool // may allocate (moves the allocation frontier)
-	Proto    string
+	Pkg        string
+	Func       string
+	Props      []string
+	Requires   []*Clause
+	Ensures    []*Clause
+	Cases      []*Case
+	Modifies   []ModLoc
+	ModAny     bool
+	LoopInv    map[int][]*Clause
+	Unroll     map[int]int
+	Panics     *Clause
+	Inline     bool
+	Trusted    bool
+	Emits      bool // may extend the call trace
+	Allocs     bool // may allocate (moves the allocation frontier)
+	Proto      string
 	Discipline bool
-	Where    string
-	Atomic   []string
-	NoFrame  bool
-	Ghost    []BoundVar
-	Witness  []WitnessDecl
+	Where      string
+	Atomic     []string
+	NoFrame    bool
+	Ghost      []BoundVar
+	Witness    []WitnessDecl
 }
 
 // WitnessDecl: a name usable in postconditions that stands for the final value
@@ -94,8 +94,8 @@ type PkgSpec struct {
 	Preds     map[string]*Pred
 	Pure      map[string]*PureFn
 	Lemmas    []*Lemma
-	Extern    map[string]bool // extern interfaces: invoke = trace event
-	PureM     map[string]bool // "Iface.Method": deterministic, effect-free interface methods
+	Extern    map[string]bool      // extern interfaces: invoke = trace event
+	PureM     map[string]bool      // "Iface.Method": deterministic, effect-free interface methods
 	ExtPost   map[string][]*Clause // "Iface.Method": assumed facts about results of extern calls
 	Closed    map[string]*ClosedIface
 	Protos    map[string]*Protocol
